@@ -81,6 +81,12 @@ func pool() []unit {
 		{Dir: "header", ID: "hdr-cmt", Text: "header /docs X-Cmt c1 # fits a 19\" rack"},
 		// the last argument is a placeholder of an environment variable that is not set
 		{Dir: "header", ID: "hdr-env-unset", Text: "header /docs X-Env-Unset {$VERIF_C09_NEVER_SET}"},
+		// three lines of different, overlapping scopes that set the SAME field:
+		// which value a request below /dir or /docs gets is decided by the order
+		// of the lines in the file, and by nothing else
+		{Dir: "header", ID: "hdr-over-root", Text: "header / X-Over root"},
+		{Dir: "header", ID: "hdr-over-dir", Text: "header /dir X-Over dir"},
+		{Dir: "header", ID: "hdr-over-docs", Text: "header /docs {\n\t\tX-Over docs\n\t\tX-Over-2 docs2\n\t}"},
 		{Dir: "header", ID: "hdr-wrapped", Text: "header /a.txt X-Wrapped \"part one \\\n\t\tpart two\""},
 
 		{Dir: "errors", ID: "errors-pages", Text: "errors %LOG%/errors.log {\n\t\t404 errs/404.html\n\t\t401 %ROOT%/errs/401.html\n\t}", Single: true},
@@ -220,8 +226,12 @@ func genBlock(r *lib.Rng, p []unit, n int) *block {
 	// one block in eight starts from the pair whose joint effect is otherwise
 	// rarely drawn: a body limit and the innermost handler that reads the body
 	var forced []string
-	if n >= 4 && r.Intn(8) == 0 {
+	switch x := r.Intn(8); {
+	case n >= 4 && x == 0:
 		forced = []string{"probe", "limits-block"}
+	case n >= 5 && x == 1:
+		// ... and the lines whose relative order is itself observable
+		forced = []string{"hdr-over-root", "hdr-over-dir", "hdr-over-docs"}
 	}
 	for tries := 0; len(b.Units) < n && tries < 400; tries++ {
 		u := p[r.Intn(len(p))]
